@@ -15,8 +15,37 @@ M2_TOL = 5e-3   # relative to max(1, <H^2>); correct code gives <= 1e-5 (MPO @ M
 FID_TOL = 2e-3
 
 
+def run_loop_shape(ctx):
+    """Fail-closed source shape: MPSBackend._run is `while not impl.is_finished(): impl.progress()` followed only by the
+    autosave clean-up and `return impl.results` -- the loop the Gallina [run] models (the trace harness drives the
+    same two methods itself, so the loop's own shape is pinned here)."""
+    import ast
+    src = (common.REPO / "emu_mps" / "mps_backend.py").read_text()
+    ok, why = False, "MPSBackend._run not found"
+    for cls in [n for n in ast.parse(src).body if isinstance(n, ast.ClassDef) and n.name == "MPSBackend"]:
+        for fn in [n for n in cls.body if isinstance(n, ast.FunctionDef) and n.name == "_run"]:
+            body = [b for b in fn.body if not (isinstance(b, ast.Expr) and isinstance(b.value, ast.Constant))]
+            arg = fn.args.args[0].arg if fn.args.args else None
+            w = body[0] if body else None
+            want_test = f"not {arg}.is_finished()"
+            want_body = [f"{arg}.progress()"]
+            if not isinstance(w, ast.While) or w.orelse:
+                why = "first statement is not a plain while loop"
+            elif ast.unparse(w.test) != want_test or [ast.unparse(b) for b in w.body] != want_body:
+                why = f"loop is `while {ast.unparse(w.test)}: {[ast.unparse(b) for b in w.body]}`"
+            elif any(isinstance(x, (ast.While, ast.For)) or "progress" in ast.unparse(x) for b in body[1:] for x in ast.walk(b)):
+                why = "further stepping after the loop"
+            elif not (isinstance(body[-1], ast.Return) and ast.unparse(body[-1].value) == f"{arg}.results"):
+                why = "does not return impl.results"
+            else:
+                ok, why = True, ""
+    ctx.obligation("source-shape:MPSBackend._run == `while not finished: progress()` (Model.MpsMachine.run)", ok, why,
+                   kind="translator")
+
+
 def trace_stage(ctx, kind, n_cases, tag):
     """model <-> implementation trace correspondence (exact / bit-exact on times)"""
+    run_loop_shape(ctx)
     cases = [T.gen_case(ctx.rng, kind, malformed=(i % 9 == 8)) for i in range(n_cases)]
     impl = [T.run_impl(c) for c in cases]
     ok, detail, hist = True, "", {}
